@@ -24,7 +24,7 @@ from pydantic import Field
 
 from processscheduler.resource import Worker, CumulativeWorker, SelectWorkers
 from processscheduler.constraint import ResourceConstraint
-from processscheduler.util import sort_duplicates
+from processscheduler.util import sort_with_ties
 from processscheduler.task import VariableDurationTask
 
 
@@ -570,8 +570,8 @@ class ResourceNonDelay(ResourceConstraint):
                 "The resource is not assigned to any task. Please first assign the resource to one or more tasks, and then add the ResourceNonDelay constraint."
             )
         # sort both lists
-        sorted_starts, c1 = sort_duplicates(starts)
-        sorted_ends, c2 = sort_duplicates(ends)
+        sorted_starts, c1 = sort_with_ties(starts)
+        sorted_ends, c2 = sort_with_ties(ends)
         for c in c1 + c2:
             self.set_z3_assertions(c)
         # from now, starts and ends are sorted in asc order
@@ -620,8 +620,8 @@ class ResourceTasksDistance(ResourceConstraint):
             )
 
         # sort both lists
-        sorted_starts, c1 = sort_duplicates(starts)
-        sorted_ends, c2 = sort_duplicates(ends)
+        sorted_starts, c1 = sort_with_ties(starts)
+        sorted_ends, c2 = sort_with_ties(ends)
         for c in c1 + c2:
             self.set_z3_assertions(c)
         # from now, starts and ends are sorted in asc order
